@@ -54,6 +54,9 @@ class Scratch:
 def run_jobs(exe, jobs, hooks=True, timeout=60):
     def one(j):
         j.res = unc.run(exe, j.cfg, j.inp, j.lang, hooks=hooks, timeout=timeout)
+        if j.res["rc"] == "timeout" and timeout < 30:
+            # a short timeout on a loaded machine is not a hang: confirm with a generous one before any check calls it one
+            j.res = unc.run(exe, j.cfg, j.inp, j.lang, hooks=hooks, timeout=max(30, 4 * timeout))
         j.vals = unc.cfg_values(exe, j.cfg)
         if hooks and j.res["rc"] == 0:
             j.hdr, j.chunks = unc.dump(j.res["trace"], "P1")
